@@ -244,6 +244,25 @@ def _diff_one(sk, r, tier, rec):
                 posb = tuple(b.id_manager.bounds[i])
                 if gotb != wantb or posb != wantb:
                     bad('bounds-attached-to-wrong-parameter', f'bounds of {nm} (orig {o}): by name {gotb}, by position {posb}, expected {wantb}')
+            # random starting values: every parameter is drawn within ITS OWN bounds (the random source is owned: it answers
+            # with the upper end of the interval it is asked for, so the value tells which interval was used)
+            if any(st[o] == 'bounded' for o in free_orig):
+                import numpy.random as npr
+                saved_uniform = npr.uniform
+                npr.uniform = lambda low=0.0, high=1.0, size=None: high
+                try:
+                    b.set_random_init_values(default_bound=100.0 + len(names))
+                    rnd = {inv[nm]: float(v) for nm, v in b.get_beta_values().items() if nm in inv}
+                except Exception as e:
+                    bad(f'set_random_init_values-raised-{type(e).__name__}', str(e)[:200])
+                    rnd = None
+                finally:
+                    npr.uniform = saved_uniform
+                if rnd is not None:
+                    want_rnd = {o: (BOUNDS[o][1] if st[o] == 'bounded' else 100.0 + len(names)) for o in free_orig}
+                    if rnd != want_rnd:
+                        bad('bounds-attached-to-wrong-parameter', f'set_random_init_values: upper ends used by original name {rnd}, expected {want_rnd}')
+                b.change_init_values({mapping[o]: ORIG[o] for o in free_orig})
             # dictionary -> list conversion offered to users: values by name, in the reported (sorted) order, whatever the
             # insertion order of the dictionary; without a dictionary: the values the parameters have now
             try:
@@ -436,7 +455,12 @@ def _setvalues(task, rec):
     db = make_db(ROWS, COLS)
 
     def dict_for(mask, shift):
-        return {mapping[o]: POINT[o] + shift for i, o in enumerate(origs) if mask >> i & 1}
+        # the first named parameter gets exactly 0.0 (a value, not "nothing given") when the mask is odd-sized
+        named = [o for i, o in enumerate(origs) if mask >> i & 1]
+        out = {mapping[o]: POINT[o] + shift for o in named}
+        if len(named) % 2 == 1:
+            out[mapping[named[0]]] = 0.0 if shift > 0 else 0
+        return out
 
     for statuses in status_assignments(tier):
         st = dict(zip(origs, statuses))
